@@ -8,6 +8,7 @@ import (
 	"encoding/binary"
 	"fmt"
 	"io"
+	"math"
 	"sync"
 
 	"google.golang.org/grpc/encoding"
@@ -127,7 +128,7 @@ func (c CodecProto) ReadNext(b []byte, r io.Reader, limit int) ([]byte, int, err
 	if n < 0 {
 		return b, 0, protowire.ParseError(n)
 	}
-	if limit > 0 && int(size) > limit {
+	if size > math.MaxInt32 || (limit > 0 && size > uint64(limit)) {
 		return b, 0, &protodelim.SizeTooLargeError{Size: size, MaxSize: uint64(limit)}
 	}
 	b = b[n:] // consume the varint
